@@ -23,4 +23,30 @@ NOT_APPLICABLE = {f"C{n:02d}": _PENDING for n in range(1, 20)}
 NOT_APPLICABLE["C08"] = ("the comment scanner is a per-line string state machine over runtime text; whether a comment "
                          "swallows or leaks code depends on marker positions in the input, which no code-shape argument bounds "
                          "(DESIGN.md section 6); code-shaped sub-facts are carried by C13/C14")
+CHECKS["C14"] = {
+    "engine": "E5 rules (effects, read-before-write)",
+    "technique": "interprocedural read-before-write / must-assign analysis on the parser object, effect and escape rules, set-order lint, file-effect reachability",
+    "text": "Decides the code-shaped core of the property for all call histories: no attribute of the parser object that a run changes is read or mutated before being re-assigned in the next run (so no accumulator or pending statement survives), objects that escape into a result are rebound to fresh objects, formatter/table objects and their accumulators are created per run, no mutable class-level default, no process-global PLY handle, set-typed values are used only order-insensitively (hash-seed independence), file-creating calls are reachable only under the dump / log_file guards, entry points do not mutate their arguments. Equality of results across processes then follows from PLY / json determinism (trusted), not from an execution.",
+    "design_ref": "DESIGN.md section 4 C14, section 3 T-RESET/T-SETORD/T-FILE/T-NOGLOBAL",
+    "note": "Trusted: PLY keeps no state between parse() calls beyond the lexer object (whose flags are reset per statement, C03); CPython dict order; json. Not decided: run-time equality as such.",
+}
+CHECKS["C15"] = {
+    "engine": "E5 rules (T-NOGLOBAL) on E1 call graph",
+    "technique": "who-may-call / shared-state effect analysis over the resolved call graph",
+    "text": "For all interleavings and thread schedules: two parser objects share no mutable state in repository code. Shown by: the statement parse goes through the per-object handle stored from yacc.yacc(module=self) and passes the per-object lexer stored from lex.lex(object=self) (PLY would otherwise fall back to module globals bound to the most recently built parser); no global statement, module- or class-attribute store, or module-level container mutation is reachable from construction, run() or any lexer rule / grammar action; no mutable class-level value in the parser MRO; every lexer flag is stored on self.lexer; silent / normalize_names are read from self.",
+    "design_ref": "DESIGN.md section 4 C15, section 3 T-NOGLOBAL",
+    "note": "Trusted: objects returned by PLY's yacc.yacc()/lex.lex() are independent of one another apart from PLY's module globals (shown unused); logging configuration is process-global by nature.",
+}
+CHECKS["C16"] = {
+    "engine": "E5 rules (T-RAISEGATE, T-FLAGFLOW) on E1 call graph / guard atoms",
+    "technique": "raise-site enumeration over the call graph with control-dependence on the silent flag; flag-use def-use check",
+    "text": "Every raise statement reachable from run() (including lexer rules and grammar actions, which PLY calls by reflection) is either one of the two raises the properties require (unknown output_mode, ALTER/INDEX on an undefined table), control-dependent on `not self.silent`, or raised under a parse call whose handler re-raises only under `not self.silent`; `silent` is used only as the test of such a raise (hence cannot change a result); the error hooks raise DDLParserError, which subclasses SimpleDDLParserException; the unknown-mode test dominates parsing and builds its message from the mode table.",
+    "design_ref": "DESIGN.md section 4 C16, section 3 T-RAISEGATE",
+    "note": "Declined: exceptions thrown implicitly by actions on malformed values (int('x'), KeyError); 'supported DDL never raises' is covered at parse level by the O-accept obligations of the derivation checks.",
+}
+for _k in ("C14", "C15", "C16"):
+    NOT_APPLICABLE.pop(_k, None)
+ENGINES.append({"name": "E5 rules", "path": "/verif/sdpverif/rules", "serves_properties": ["C03", "C10", "C12", "C13", "C14", "C15", "C16", "C19"],
+                "kind_free_text": "effect / def-use / must-assign / guard-atom rules over E1 (statement CFG, dominators, read-before-write)"})
+
 NOTES = "Static analysis only; nothing from /repo is imported or executed. See DESIGN.md."
